@@ -91,6 +91,16 @@ def plan(tier, seed):
         fs = {rel: b64(data) for rel, data in sfiles.items()}
         jobs.append({"id": f"sast{q}|batch", "pair": f"s{q}", "kind": "batch", "ks": ks, "files": fs, "result_files": sres, "argv": ["{proj}", "--output", "{out}"] + flags + ["--codemod-include", ",".join(ks)], "monitors": {"snap": False, "pipe": False}})
         jobs.append({"id": f"sast{q}|chain", "pair": f"s{q}", "kind": "chain", "ks": ks, "files": fs, "result_files": sres, "argv": [], "steps": [["{proj}", "--output", "{out}"] + flags + ["--codemod-include", k] for k in ks], "monitors": {"snap": False, "pipe": False}})
+    # find-and-fix and tool-driven codemods mixed in ONE explicit include list, the find-and-fix one aimed at the same sites (pixee secure-random / sonar secure-random):
+    # whichever comes first in the list fixes the site and the other finds nothing - in the batch exactly as in the chain
+    for q in range(2 if tier == "quick" else 8):
+        sfiles, sres = _c11.sast_project(rnd, rnd.choice((9, 12)))
+        rest = rnd.sample(SAST_KS, len(SAST_KS))
+        ks = (["pixee:python/secure-random"] + rest) if q % 2 == 0 else (lambda i: rest[:i] + ["pixee:python/secure-random"] + rest[i:])(rnd.randint(1, len(rest)))
+        flags = ["--sonar-issues-json", "{res}/issues.json", "--sonar-hotspots-json", "{res}/hotspots.json", "--sarif", "{res}/semgrep.sarif", "--defectdojo-findings-json", "{res}/dd.json"]
+        fs = {rel: b64(data) for rel, data in sfiles.items()}
+        jobs.append({"id": f"mixed{q}|batch", "pair": f"m{q}", "kind": "batch", "ks": ks, "files": fs, "result_files": sres, "argv": ["{proj}", "--output", "{out}"] + flags + ["--codemod-include", ",".join(ks)], "monitors": {"snap": False, "pipe": False}})
+        jobs.append({"id": f"mixed{q}|chain", "pair": f"m{q}", "kind": "chain", "ks": ks, "files": fs, "result_files": sres, "argv": [], "steps": [["{proj}", "--output", "{out}"] + flags + ["--codemod-include", k] for k in ks], "monitors": {"snap": False, "pipe": False}})
     base = ["{proj}", "--output", "{out}"]
     for q, (ks, files) in enumerate(extra):
         jobs.append({"id": f"xseq{q}|batch", "pair": f"x{q}", "kind": "batch", "ks": ks, "files": files, "argv": base + ["--codemod-include", ",".join(ks)], "monitors": {"snap": False, "pipe": False}})
